@@ -8,6 +8,28 @@ pub(super) fn value_as_f64(value: &Value) -> Option<f64> {
     }
 }
 
+/// Exact comparison of an integer with a float (`None` only for NaN).  Going through `i as f64`
+/// rounds integers above 2^53, which made `=` non-transitive and `<` wrong for large values.
+pub(super) fn compare_int_float(i: i64, f: f64) -> Option<std::cmp::Ordering> {
+    use std::cmp::Ordering;
+    if f.is_nan() {
+        return None;
+    }
+    // 2^63 and -2^63 are exactly representable; everything outside is beyond any i64.
+    if f >= 9_223_372_036_854_775_808.0 {
+        return Some(Ordering::Less);
+    }
+    if f < -9_223_372_036_854_775_808.0 {
+        return Some(Ordering::Greater);
+    }
+    let floor = f.floor();
+    let whole = floor as i64; // exact: |floor| < 2^63 and floor is integral
+    Some(match i.cmp(&whole) {
+        Ordering::Equal if f > floor => Ordering::Less,
+        other => other,
+    })
+}
+
 pub(super) fn value_as_i64(value: &Value) -> Option<i64> {
     match value {
         Value::Int(i) => Some(*i),
